@@ -84,7 +84,7 @@ static void give_back(unsigned s) { vp_add_succ(s); mode[s] = M_PUSH; }
 static void run(unsigned accpat, unsigned flippat) {
   fg_reset(); nprod = ncons = nbodycalls = activated = noffer = reserved = 0; acc_bits = accpat; flip_bits = flippat; in_task = 0; last_rejected = 0;
   for (unsigned s = 0; s < 3; s++) mode[s] = s < NSUCC ? M_PUSH : M_REMOVED;
-  vp_init(NSUCC);
+  vp_init(NSUCC); vp_init_extra_succ(NSUCC);
   VP_ASSERT(bag_n == 0, "an inactive input_node spawned a task at registration");
   settled();
   for (int k = 0; k < NOPS; k++) {
